@@ -370,6 +370,8 @@ def run(chk):
                         'the clamp against the free count', floor=8)
     q7 = chk.rule('Q7', 'every path that hands a job to the stage dispatch (submit_new_job / submit_new_burst_job) first sets its status to '
                         'BEING_PROCESSED: a ring slot keeps the status of its previous use', floor=9)
+    from . import c12 as _c12
+    _c12.run_v9(chk, P, 'Q8', lambda fn: bool(re.search(r'burst|queue|submit_job_and_check|get_next_job|get_completed_job|flush_job', fn)), 200)
     nvar = 0
     mgr = P.record('IMB_MGR')
     jobsz = P.record('IMB_JOB')['size']
